@@ -410,6 +410,9 @@ class Gen:
             n, k, cpp, orc, cls = m.shape[1], m.shape[0], f"min(as_columns({m.cpp}))", f"o_mincols({m.orc})", self.K("sumcols", m.cls)
         if k == 0:
             raise Unsupported("max/min of empty rows is undefined")
+        if self.r is not None and any(o in m.ops for o in ("diagm", "unit", "sparse")):
+            # F19 (known, no patch): max/min folds over sparse-iterated expressions ignore the implicit zeros
+            raise Unsupported("max/min fold over a sparse-iterated expression (F19)")
         return E("V", n, f"({which} {m.txt})", cpp, orc, m.bound, m.dexp, m.reads, cls, False, None, False, m.depth + 1,
                  m.ops + (which,))
 
